@@ -643,13 +643,26 @@ def r144(ctx, rep, f, ev, cg, reach):
     tb = ev.tb(ex)
     if tb is not None:
         ev.watch = lambda c: c.endswith("::push")
-        clos = sorted(q for q in f.fns if q.startswith(ex + "::{closure#"))
-        guarded = 0
-        for c in clos:
-            for o in ev.collect_ifs(c, [Sym("env"), Sym("a")]):
-                if "call" in o and o["guard"] and "contains" in o["guard"][-1] and "Not(" in o["guard"][-1]:
-                    guarded += 1
-        rep.check(guarded == 1, "R14.5", "R14.5|codes|unique", "a code is added only if not already present", W, "guarded pushes: %d" % guarded)
+        # the function itself (loop form, local helpers followed) and its closures (for_each form): every push of a
+        # code is guarded by `!list.contains(code)`, and there is at least one
+        bodies = [ex] + sorted(q for q in f.fns if q.startswith(ex + "::{closure#"))
+        guarded = unguarded = 0
+        for c in bodies:
+            tbc = ev.tb(c)
+            if tbc is None:
+                continue
+            try:
+                recs_ = ev.collect_ifs(c, [Sym("a%d" % i) for i in range(len(tbc.params))], follow=lambda q: q.startswith("fastpasta::stats::stats_collector::error_stats::") and "{closure" not in q)
+            except Unsupported:
+                unguarded += 1
+                continue
+            for o in recs_:
+                if "call" in o and not o.get("closure"):
+                    if o["guard"] and any("contains" in g and ("Not(" in g or g.startswith("not ")) for g in o["guard"]):
+                        guarded += 1
+                    else:
+                        unguarded += 1
+        rep.check(guarded >= 1 and unguarded == 0, "R14.5", "R14.5|codes|unique", "a code is added only if not already present", W, "guarded pushes: %d, unguarded: %d" % (guarded, unguarded))
     # set-valued statistics
     ev.watch = lambda c: c.endswith("::push")
     for p_, fld in ((RS + "record_fee_observed", "fee_id"), ("fastpasta::stats::stats_collector::its_stats::ItsStats::record_layer_stave_seen", "layer_staves_seen")):
